@@ -523,7 +523,7 @@ func (e *Env) sequenceOrder(rule string, fn *ssa.Function, cfg gcfg, label strin
 				continue
 			}
 			for _, in := range b.Instrs {
-				if st.g.Instr != nil && st.g.Instr(in) {
+				if st.g.Instr != nil && (st.g.Instr(in) || helperContains(e, in, st.g, 0)) {
 					sites[i] = append(sites[i], in)
 				}
 			}
@@ -540,6 +540,13 @@ func (e *Env) sequenceOrder(rule string, fn *ssa.Function, cfg gcfg, label strin
 		ok := true
 		for _, a := range sites[i] {
 			for _, b := range sites[i+1] {
+				if a == b {
+					// both steps happen inside one helper call: their order inside the helper
+					if !helperOrder(e, a, steps[i].g, steps[i+1].g) {
+						ok = false
+					}
+					continue
+				}
 				if !ctx.Reaches(a, b) || ctx.Reaches(b, a) {
 					ok = false
 				}
@@ -682,4 +689,68 @@ func isLenLoop(h *ssa.BasicBlock) bool {
 	}
 	bi, ok := call.Call.Value.(*ssa.Builtin)
 	return ok && bi.Name() == "len"
+}
+
+// helperContains: in is a call to a module function the rule tables do not
+// know, and that function (with its parameters standing for the arguments of
+// this call) executes an instruction matching g: an emission step moved into
+// a new helper is found at the helper's call site.
+func helperContains(e *Env, in ssa.Instruction, g gate.Gate, depth int) bool {
+	c, ok := in.(*ssa.Call)
+	if !ok || g.Instr == nil || depth > 1 {
+		return false
+	}
+	h := c.Call.StaticCallee()
+	if h == nil || h.Blocks == nil || !e.P.InModule(h) || prov.KnownFunction(h) || len(c.Call.Args) != len(h.Params) {
+		return false
+	}
+	prov.PushSubst(h, &c.Call)
+	defer prov.PopSubst()
+	for _, b := range h.Blocks {
+		for _, i2 := range b.Instrs {
+			if g.Instr(i2) || helperContains(e, i2, g, depth+1) {
+				return true
+			}
+		}
+	}
+	return false
+}
+
+// helperOrder: inside the helper called by in (parameters standing for the
+// arguments of the call), every instruction matching g1 precedes every
+// instruction matching g2.
+func helperOrder(e *Env, in ssa.Instruction, g1, g2 gate.Gate) bool {
+	c, ok := in.(*ssa.Call)
+	if !ok {
+		return false
+	}
+	h := c.Call.StaticCallee()
+	if h == nil || h.Blocks == nil {
+		return false
+	}
+	prov.PushSubst(h, &c.Call)
+	defer prov.PopSubst()
+	var s1, s2 []ssa.Instruction
+	for _, b := range h.Blocks {
+		for _, i2 := range b.Instrs {
+			if g1.Instr != nil && g1.Instr(i2) {
+				s1 = append(s1, i2)
+			}
+			if g2.Instr != nil && g2.Instr(i2) {
+				s2 = append(s2, i2)
+			}
+		}
+	}
+	if len(s1) == 0 || len(s2) == 0 {
+		return false
+	}
+	ctx := gate.New(e.P, e.P.VTA())
+	for _, a := range s1 {
+		for _, b := range s2 {
+			if a == b || !ctx.Reaches(a, b) || ctx.Reaches(b, a) {
+				return false
+			}
+		}
+	}
+	return true
 }
